@@ -35,8 +35,14 @@ C21_BREAKS = {
     "timeouts-count-as-kills": ("both", ["score:differs-from-recomputation:timeouts-counted-as-kills", "score:out-of-range", "score:NumberOfKilledMutants-differs"]),
     "score-divisor-includes-timeouts": ("both", ["score:differs-from-recomputation:timeouts-kept-in-divisor"]),
     "filtering-skipped": ("pipeline", ["kept-assertion-does-not-hold:failed:ObjectAssertion"]),
+    "filter-ignores-errors-when-failed": ("pipeline", ["kept-assertion-does-not-hold:error:"]),
+    "filter-ignores-errors": ("pipeline", ["kept-assertion-does-not-hold:error:"]),
 }
 C21_RUNS = [
+    {"sut": "tickets", "algorithm": "DYNAMOSA", "seed": 79, "iterations": 6, "assertion_generation": "SIMPLE",
+     "config": {T + "filter_assertions_in_subprocess": False}},
+    {"sut": "tickets", "algorithm": "DYNAMOSA", "seed": 97, "iterations": 6, "assertion_generation": "MUTATION_ANALYSIS",
+     "config": {T + "assertion_minimization": True, T + "filter_assertions_in_subprocess": False}},
     {"sut": "tri", "algorithm": "DYNAMOSA", "seed": 3, "iterations": 6, "assertion_generation": "MUTATION_ANALYSIS",
      "config": {T + "assertion_minimization": True, T + "filter_assertions_in_subprocess": False}},
     {"sut": "looper", "algorithm": "DYNAMOSA", "seed": 59, "iterations": 4, "assertion_generation": "MUTATION_ANALYSIS",
@@ -77,6 +83,8 @@ C22_RUNS = [
 ]
 
 C35_BREAKS = {
+    "line-annotation-either-or": ["annotation:branches-on-line-differ", "annotations:sum-of-branches-differs-from-total"],
+    "one-code-object-per-line": ["annotation:branchless-on-line-differ", "totals:branchless-code-objects-count-differs"],
     "branchless-twice": ["totals:branchless-code-objects-count-differs", "annotation:branchless-on-line-differ"],
     "branchless-twice-totals-only": ["annotations:sum-of-branchless-differs-from-total", "totals:branchless-code-objects-count-differs"],
     "line-ids-as-numbers": ["annotation:line-shown-covered-but-suite-does-not-cover-it", "annotation:line-covered-by-suite-but-shown-uncovered",
@@ -86,6 +94,8 @@ C35_BREAKS = {
     "false-branch-ignored": ["annotation:branches-on-line-differ", "annotations:sum-of-branches-differs-from-total"],
 }
 C35_RUNS = [
+    {"sut": "shared_lines", "algorithm": "MOSA", "seed": 360, "iterations": 5, "metrics": ["BRANCH", "LINE"], "strategy": "CASE", "assertion_generation": "NONE"},
+    {"sut": "oneline_first", "algorithm": "DYNAMOSA", "seed": 404, "iterations": 3, "metrics": ["BRANCH"], "strategy": "CASE", "assertion_generation": "NONE"},
     {"sut": "tri", "algorithm": "MOSA", "seed": 350, "iterations": 3, "metrics": ["BRANCH", "LINE"], "strategy": "CASE", "assertion_generation": "NONE"},
     {"sut": "shapes", "algorithm": "WHOLE_SUITE", "seed": 351, "iterations": 5, "metrics": ["BRANCH", "LINE"], "strategy": "CASE", "assertion_generation": "NONE"},
     {"sut": "queue_", "algorithm": "RANDOM", "seed": 352, "iterations": 3, "metrics": ["BRANCH", "LINE"], "strategy": "NONE", "assertion_generation": "NONE"},
